@@ -34,6 +34,8 @@ var c14Templates = []string{
 	// callbacks in a call chain written over several lines (one in the prefix call, one in the arguments)
 	/* 17 */ "local v\x01 = 0\nlocal r = o:map(function(v\x02)\n local v\x03 = 1\n \x0e\nend):filter(function(v\x04)\n \x0e\nend)\n\x0e\n",
 	/* 18 */ "return mk(function(v\x01, v\x02)\n if k then\n  local v\x03 = 1\n  \x0e\n end\nend)(function(v\x04)\n \x0e\nend)\n",
+	// function values in a table constructor: under a name, a computed key, an index and a string key
+	/* 19 */ "local v\x01 = 0\nlocal h = {\n on = function(v\x02)\n  return \x0f\n end,\n [E.OPEN] = function(v\x02, v\x03)\n  local v\x04 = 1\n  return \x0f\n end,\n [k + 1] = function(v\x03) return \x0f end,\n [\"s\"] = function(v\x04) return \x0f end,\n}\nlocal z = \x0f\n",
 }
 
 // a second file of the workspace: plain and _G-qualified globals (all must be offered) and a local (never)
